@@ -12,6 +12,10 @@
 (*          (generic T: Debug) "samename" / "liftname" (see below)         *)
 (*  opt     option set: "none" "unimock" (mock_api + unimock) "mockall"    *)
 (*          "export" "nosend" (?Send)                                      *)
+(*  hyg     the item is produced by a macro_rules! macro whose caller      *)
+(*          supplies the name of the first parameter - the SAME name the   *)
+(*          macro body gives the second one: two distinct bindings that    *)
+(*          only macro hygiene tells apart                                 *)
 (***************************************************************************)
 EXTENDS TLC, Sequences, Naturals, FiniteSets, SequencesExt
 
@@ -31,6 +35,7 @@ WellFormed(p) ==
   /\ (p.mode = "fn" => p.nfn = 1) /\ (p.mode = "mod" => p.nfn \in 2..3)
   /\ (p.deps = "concrete" => p.mode = "fn" /\ p.opt \in {"none", "nosend"})     \* concrete deps: fn only; mocks are C05/C11's
   /\ (p.opt = "nosend" => p.async)
+  /\ (p.hyg => Len(p.params) >= 2 /\ p.params[1] = "i32" /\ p.params[2] = "i32" /\ p.opt = "none")
   /\ Cardinality({ i \in DOMAIN p.params : p.params[i] \in {"samename", "liftname"} }) <= 1     \* one binding of that name at most
   /\ (p.opt = "unimock" => ~(\E i \in DOMAIN p.params : p.params[i] \in {"gen", "liftname"}) /\ p.deps # "genval")
   /\ (p.opt = "mockall" => ~p.async /\ ~(\E i \in DOMAIN p.params : p.params[i] \in {"gen", "str", "liftname"}) /\ p.deps # "genval")
